@@ -35,11 +35,11 @@ def run(rep, tier):
     common.negative_control(rep, "BundleSize", "BundleSize_3_noguard.cfg", SPECDIR,
                             "without the capacity guard (the defect repaired by the fix: commit) the size model violates NoOverflow")
 
-    nproc, nb, ns = (8, 500, 60) if tier == "quick" else (16, 5000, 600)
+    nproc, nb, ns, nsmall = (8, 500, 60, 300) if tier == "quick" else (16, 5000, 600, 3000)
 
     def drive(i):
         out = os.path.join(work, "bundle_%d.ndjson" % i)
-        rc, o, _ = common.run([exe, out, str(common.seed() * 1000 + i + 1), str(nb), str(ns)], timeout=3000, check=False)
+        rc, o, _ = common.run([exe, out, str(common.seed() * 1000 + i + 1), str(nb), str(ns), str(nsmall)], timeout=3000, check=False)
         rs = common.read_ndjson(out) if os.path.exists(out) else []
         crashed = rc != 0 or not rs or rs[-1].get("case") != -1
         bad = [x for x in rs if x["e"] in ("Abort", "Timeout")]
